@@ -255,6 +255,50 @@ func init() {
 		}
 		return w.Close()
 	})
+	// vh c02-wire cases.ndjson trace.ndjson : what the library writes for every case value, as a tagged tree
+	register("c02-wire", func(args []string) error {
+		w, err := newNDWriter(args[1])
+		if err != nil {
+			return err
+		}
+		err = readNDJSON(args[0], func(raw []byte) error {
+			var c rtCase
+			if err := json.Unmarshal(raw, &c); err != nil {
+				return err
+			}
+			if c.V["k"] != "obj" {
+				return nil
+			}
+			it := buildItem(c.V)
+			for _, via := range []string{"pkg", "type"} {
+				ev := J{"ev": "wire", "via": via, "lab": c.Lab, "in": c.V, "wire": J{"j": "none"}, "err": ""}
+				var data []byte
+				e := safely(func() error {
+					var e error
+					if via == "pkg" {
+						data, e = ap.MarshalJSON(it)
+					} else {
+						data, e = it.(json.Marshaler).MarshalJSON()
+					}
+					return e
+				})
+				if e != nil {
+					ev["err"] = "encode-error"
+				} else if t, perr := bytesToTree(data); perr != nil {
+					ev["err"] = "invalid-json"
+				} else {
+					ev["wire"] = t
+				}
+				ev["bytes"] = string(data)
+				w.Write(ev)
+			}
+			return nil
+		})
+		if err != nil {
+			return err
+		}
+		return w.Close()
+	})
 	// vh c05-mocks <dir> trace.ndjson : the repository's mock documents and mutations of them
 	register("c05-mocks", func(args []string) error {
 		w, err := newNDWriter(args[1])
